@@ -33,7 +33,11 @@ THEOREMS = ["Pfl.RecDescent.rdMatch_of_derives",
             "Pfl.CFG.llParse_valid",
             "Pfl.CFG.cykTree_valid",
             "Pfl.CFG.cykTree_isSome_iff",
-            "Pfl.CFG.cnfParseTree_valid"]
+            "Pfl.CFG.cnfParseTree_valid",
+            "Pfl.Earley.parseTree_valid",
+            "Pfl.Earley.parseTree_isSome",
+            "Pfl.Earley.parseTreeSpec_valid",
+            "Pfl.Earley.parseTreeSpec_isSome"]
 
 
 def generate(rng, tier):
